@@ -128,14 +128,27 @@ def h_diag(en, m):
   return E.SymSeq(m.rows, lambda i: g(i, i), z3.RealSort(), f'diag({m.name})')
 
 
-def h_cumsum(en, x, *a, **k):
-  if not arrays._is_seq(x) or a or k:
+def h_cumsum(en, x, *a, axis=None, **k):
+  if _is_mat(x) and x.cols is None and axis == 0 and not a and not k:
+    # cumulative sum down a column matrix: the column's prefix sums, still a column
+    col = E.SymSeq(x.rows, (lambda g_: (lambda i: g_(i, 0)))(x.get), z3.RealSort(), x.name)
+    cs = h_cumsum(en, col)
+    gc = cs.get
+    return SymMat(x.rows, None, lambda i, j: gc(i), f'cumsum({x.name})')
+  if not arrays._is_seq(x) or a or k or axis not in (None, 0, -1):
     raise E.Unsupported('cumsum outside the vector subset')
-  CS = z3.Function(en.fresh_name('CSUM'), z3.IntSort(), z3.RealSort())
   g, n = x.get, E.to_z3(x.length)
   kq = z3.Int('k!cs')
-  en.assume(CS(0) == 0)
-  en.assume(z3.ForAll([kq], z3.Implies(z3.And(kq >= 0, kq < n), CS(kq + 1) == CS(kq) + E._real(arrays._num(g(kq)))), patterns=[CS(kq + 1)]))
+  # one ghost function per summed vector: two cumulative sums over the same entries (same generic entry term, same length) are the same
+  # function (their defining recurrences coincide), so they share the symbol
+  key = (str(z3.simplify(E._real(arrays._num(g(kq))))), str(z3.simplify(n)))
+  table = en.__dict__.setdefault('ghost_sum_table', {})
+  if key in table:
+    CS = table[key]
+  else:
+    CS = table[key] = z3.Function(en.fresh_name('CSUM'), z3.IntSort(), z3.RealSort())
+    en.assume(CS(0) == 0)
+    en.assume(z3.ForAll([kq], z3.Implies(z3.And(kq >= 0, kq < n), CS(kq + 1) == CS(kq) + E._real(arrays._num(g(kq)))), patterns=[CS(kq + 1)]))
   if not hasattr(en, 'ghost_sums'):
     en.ghost_sums = []
   en.ghost_sums.append((CS, g, x.length))
@@ -249,12 +262,33 @@ def install(en: E.Engine):
 
   def any_attr(en_, s):
     def fn(en__):
+      g = s.get
+
+      def body(i):
+        b = E.to_z3(g(i))
+        return z3.And(i >= 0, i < E.to_z3(s.length), b if z3.is_bool(b) else b != 0)
       i = z3.Int(en__.fresh_name('i'))
-      b = E.to_z3(s.get(i))
-      b = b if z3.is_bool(b) else b != 0
-      return z3.Exists([i], z3.And(i >= 0, i < E.to_z3(s.length), b))
+      flag = z3.Bool(en__.fresh_name('any'))
+      en__.assume(flag == z3.Exists([i], body(i)))
+      en__.__dict__.setdefault('any_facts', []).append((flag, body))      # contracts instantiate the quantifier at their own index
+      return flag
     return E.SymCallable(fn, '.any() of a boolean vector == exists')
   en.libspec[('attr', 'SymSeq', 'any')] = (None, any_attr)
+
+  def all_attr(en_, s):
+    def fn(en__):
+      g = s.get
+
+      def body(i):
+        b = E.to_z3(g(i))
+        return z3.Implies(z3.And(i >= 0, i < E.to_z3(s.length)), b if z3.is_bool(b) else b != 0)
+      i = z3.Int(en__.fresh_name('i'))
+      flag = z3.Bool(en__.fresh_name('all'))
+      en__.assume(flag == z3.ForAll([i], body(i)))
+      en__.__dict__.setdefault('all_facts', []).append((flag, body))
+      return flag
+    return E.SymCallable(fn, '.all() of a vector == for all (non-zero / true)')
+  en.libspec[('attr', 'SymSeq', 'all')] = (None, all_attr)
 
   def neg_seq(en_, v):
     g = v.get
